@@ -6,6 +6,7 @@ mod lc;
 mod lg;
 mod lz;
 mod nm;
+mod sr;
 mod st;
 mod util;
 
@@ -25,6 +26,7 @@ fn main() {
         "lc-replay" => lc::replay(&args),
         "lc-probe" => lc::probe(&args),
         "nm-record" => nm::record(&args),
+        "sr-record" => sr::record(&args),
         "f32-sweep" => nm::f32_sweep(&args),
         "dom-replay" => dom::replay(&args),
         "nest" => nest(&args),
